@@ -44,6 +44,19 @@ theorem C10_wake_after_publish (cap : Nat) (hc : 0 < cap) (prog : List PCmd) (sc
     c.parked = some w → c.woken = false → deliverable c.s.sh → ∃ nx, c.s.stage = .wake w nx :=
   wake_after_publish cap hc prog sched w
 
+/-- The wait-until-delivered producer operation cannot deadlock: a producer that waits sits at
+a point other than a `wake()` call (between commands, before a critical section, or finished);
+at every such point, under every interleaving, a consumer that is parked and un-woken has nothing
+to receive — so a producer never waits for bytes whose consumer sleeps. -/
+theorem C10_wait_until_delivered_cannot_deadlock (cap : Nat) (hc : 0 < cap) (prog : List PCmd)
+    (sched : List SStep) (w : Nat) :
+    let c := (Conc.init cap prog).run sched
+    (∀ w' nx, c.s.stage ≠ .wake w' nx) → c.parked = some w → c.woken = false →
+      ¬ deliverable c.s.sh := by
+  intro c hs hp hw hd
+  obtain ⟨nx, h⟩ := wake_after_publish cap hc prog sched w hp hw hd
+  exact hs w nx h
+
 /-- It never sleeps forever while the termination is pending: when the producer has finished a
 program ending with `drop` (nothing will ever call `wake()` again), a parked consumer has been
 woken. -/
